@@ -259,12 +259,9 @@ fn files(args: &HiArgs) -> anyhow::Result<bool> {
             break;
         }
         if let Err(err) = path_printer.write(haystack.path()) {
-            // A broken pipe means graceful termination.
-            if err.kind() == std::io::ErrorKind::BrokenPipe {
-                break;
-            }
-            // Otherwise, we have some other error that's preventing us from
-            // writing to stdout, so we should bubble it up.
+            // A broken pipe means graceful termination, which `main` takes
+            // care of. Any other error is preventing us from writing to
+            // stdout. Either way, we bubble it up.
             return Err(err.into());
         }
     }
@@ -326,12 +323,10 @@ fn files_parallel(args: &HiArgs) -> anyhow::Result<bool> {
     });
     drop(tx);
     if let Err(err) = print_thread.join().unwrap() {
-        // A broken pipe means graceful termination, so fall through.
-        // Otherwise, something bad happened while writing to stdout, so bubble
-        // it up.
-        if err.kind() != std::io::ErrorKind::BrokenPipe {
-            return Err(err.into());
-        }
+        // A broken pipe means graceful termination, which `main` takes care
+        // of. Otherwise, something bad happened while writing to stdout.
+        // Either way, we bubble it up.
+        return Err(err.into());
     }
     Ok(matched.load(Ordering::SeqCst))
 }
